@@ -59,10 +59,8 @@ func parseClusterNodes(data string) (map[string]*instance, error) {
 			continue
 		}
 
-		// attach slots to master node
-		if len(fields) < 9 {
-			return nil, errInvalidClusterNodes
-		}
+		// attach slots to master node, a master which owns no slot (a node
+		// that has just joined, or has given all its slots away) has no slot field.
 		slots, err := parseClusterNodesSlot(fields[8:])
 		if err != nil {
 			return nil, err
